@@ -250,15 +250,35 @@ FireSchedAt(S, t, ord) ==
       S1 == [S0 EXCEPT !.sched = SelectSeq(@, LAMBDA e : e # r)]
   IN ReplyFx(S1, r.id, r.mk, r.a)
 
+\* When a scheduled reply and a deadline fall on the same instant, either may go first - reply by
+\* reply: win = the request ids whose reply beats the timers of that instant.
+FireSchedAtIn(S, t, ord, ids) ==
+  LET S0 == [S EXCEPT !.now = t]
+      ok(j) == S0.sched[j].at = t /\ S0.sched[j].id \in ids
+      i  == CHOOSE j \in DOMAIN S0.sched : ok(j) /\ \A k \in DOMAIN S0.sched : ok(k) => (IF ord = "lo" THEN j <= k ELSE j >= k)
+      r  == S0.sched[i]
+      S1 == [S0 EXCEPT !.sched = SelectSeq(@, LAMBDA e : e # r)]
+  IN ReplyFx(S1, r.id, r.mk, r.a)
+
+\* (the deadline of a Close in progress is a timer of that instant too: -1 \in win lets it go first)
+FireCloseAt(S, t) ==
+  LET S0 == [S EXCEPT !.now = t]
+  IN IF S0.conn THEN [DisconnectFx(S0) EXCEPT !.closing = 0, !.closed = TRUE] ELSE [S0 EXCEPT !.closing = 0, !.closed = TRUE]
+
 RECURSIVE CTimeFx(_, _, _, _)
-CTimeFx(S, upto, tie, ord) ==
+CTimeFx(S, upto, win, ord) ==
   LET tt == NextTimer(S, upto)
       ts == NextSched(S, upto)
   IN IF tt > upto /\ ts > upto THEN [S EXCEPT !.now = upto]
-     ELSE IF ts < tt \/ (ts = tt /\ tie = "reply") THEN CTimeFx(FireSchedAt(S, ts, ord), upto, tie, ord)
-     ELSE CTimeFx(FireTimersAt(S, tt), upto, tie, ord)
+     ELSE IF ts < tt THEN CTimeFx(FireSchedAt(S, ts, ord), upto, win, ord)
+     ELSE IF ts = tt /\ \E j \in DOMAIN S.sched : S.sched[j].at = ts /\ S.sched[j].id \in win
+     THEN CTimeFx(FireSchedAtIn(S, ts, ord, win), upto, win, ord)
+     ELSE IF -1 \in win /\ S.closing = tt THEN CTimeFx(FireCloseAt(S, tt), upto, win, ord)
+     ELSE CTimeFx(FireTimersAt(S, tt), upto, win, ord)
 
-CAdvanceFx(S, ms, tie, ord) == CTimeFx(S, S.now + ms, tie, ord)
+CAdvanceWinFx(S, ms, win, ord) == CTimeFx(S, S.now + ms, win, ord)
+\* tie = "reply": every reply first; "timer": the timers first
+CAdvanceFx(S, ms, tie, ord) == CAdvanceWinFx(S, ms, IF tie = "reply" THEN {S.sched[j].id : j \in DOMAIN S.sched} ELSE {}, ord)
 
 ScheduleFx(S, id, mk, a, ms) == [S EXCEPT !.sched = Append(@, [at |-> S.now + ms, id |-> id, mk |-> mk, a |-> a])]
 
